@@ -112,7 +112,7 @@ harnesses! {
     #[kani::unwind(4)]
     #[kani::stub(alloc::fmt::format, crate::stubs::fmt_stub)]
     #[kani::stub(f32::round, crate::stubs::round_stub)]
-    #[kani::stub(f32::ln, crate::stubs::ln_stub)]
+    #[kani::stub(f32::ln, crate::stubs::ln_bits_stub)]
     fn u_gnd_slab_kernel(s) {
         let (z, d_t, b, psi) = (s.g(7) * 0.5, s.g(15) * 0.25 + 0.25, s.g(15) * 0.5 + 0.5, -(s.g(7) * 0.125));
         let w = wall(5, BoundaryType::GROUND, 3, 9, None, 180.0, Vec::new());
@@ -129,7 +129,7 @@ harnesses! {
     #[kani::unwind(4)]
     #[kani::stub(alloc::fmt::format, crate::stubs::fmt_stub)]
     #[kani::stub(f32::round, crate::stubs::round_stub)]
-    #[kani::stub(f32::ln, crate::stubs::ln_stub)]
+    #[kani::stub(f32::ln, crate::stubs::ln_bits_stub)]
     fn u_gnd_wall_kernel(s) {
         let (z, uw, d_t, h) = (s.g(7) * 0.5, s.g(15) * 0.25 + 0.25, s.g(15) * 0.25 + 0.25, s.g(7) * 0.5 + 0.5);
         let w = wall(5, BoundaryType::GROUND, 3, 9, None, 90.0, Vec::new());
@@ -156,7 +156,7 @@ harnesses! {
     #[kani::unwind(5)]
     #[kani::stub(alloc::fmt::format, crate::stubs::fmt_stub)]
     #[kani::stub(f32::round, crate::stubs::round_stub)]
-    #[kani::stub(f32::ln, crate::stubs::ln_stub)]
+    #[kani::stub(f32::ln, crate::stubs::ln_bits_stub)]
     fn u_gnd_dt_psi(s) {
         let mut m = Model::default();
         let rr = s.g(15) * 0.25;
@@ -371,26 +371,26 @@ harnesses! {
     #[kani::unwind(6)]
     #[kani::stub(alloc::fmt::format, crate::stubs::fmt_stub)]
     #[kani::stub(f32::round, crate::stubs::round_stub)]
-    #[kani::stub(f32::ln, crate::stubs::ln_stub)]
+    #[kani::stub(f32::ln, crate::stubs::ln_bits_stub)]
     fn u_ground_top(s) { ground_case(s, 0.0, Tilt::TOP, true, true) }
 
     #[kani::unwind(6)]
     #[kani::stub(alloc::fmt::format, crate::stubs::fmt_stub)]
     #[kani::stub(f32::round, crate::stubs::round_stub)]
-    #[kani::stub(f32::ln, crate::stubs::ln_stub)]
+    #[kani::stub(f32::ln, crate::stubs::ln_bits_stub)]
     fn u_ground_slab(s) { ground_case(s, 180.0, Tilt::BOTTOM, true, true) }
 
     #[kani::unwind(6)]
     #[kani::stub(alloc::fmt::format, crate::stubs::fmt_stub)]
     #[kani::stub(f32::round, crate::stubs::round_stub)]
-    #[kani::stub(f32::ln, crate::stubs::ln_stub)]
+    #[kani::stub(f32::ln, crate::stubs::ln_bits_stub)]
     fn u_ground_wall(s) { ground_case(s, 90.0, Tilt::SIDE, true, true) }
 
     /// ground element whose space is missing, or whose space has no ground slab: no U-value
     #[kani::unwind(6)]
     #[kani::stub(alloc::fmt::format, crate::stubs::fmt_stub)]
     #[kani::stub(f32::round, crate::stubs::round_stub)]
-    #[kani::stub(f32::ln, crate::stubs::ln_stub)]
+    #[kani::stub(f32::ln, crate::stubs::ln_bits_stub)]
     fn u_ground_missing(s) {
         if s.bool() { ground_case(s, 90.0, Tilt::SIDE, false, true) } else { ground_case(s, 90.0, Tilt::SIDE, true, false) }
     }
